@@ -1,4 +1,5 @@
 import Hertz.Proofs.Fs
+import Hertz.Proofs.FsTree
 /-!
 # C08 — static file responses return exactly the requested bytes
 
@@ -15,8 +16,15 @@ where `AppendUint`'s 20-byte buffer matters), both methods, all three reader kin
 found earlier — suffix ranges selecting no bytes, and the overflow test of `ParseUintBuf`; the
 former witnesses are kept as regression examples).
 
-Not modelled (exercised by the correspondence only): open/stat/cache/reader ref-counts,
-compression, index page generation, `If-Modified-Since`, path normalisation (C07).
+The second part (`## which file is served`) is about the open path — `openFSFile`,
+`compressAndOpenFSFile`, `compressFileNolock`, the two file caches — over an abstract directory tree
+(`Hertz/Model/FsTree.lean`), held to the Go code by the `fsseq` scenarios of `bin/check C08`
+(trees that change between requests: planted / stale / newer `.hertz.gz` siblings, roll-backs with
+preserved mtimes, restarts, real cache expiry).
+
+Not modelled (exercised by the correspondence only): reader ref-counts, the gzip encoder itself
+(a compressed file is "some gzip stream of these bytes"), directories and index page generation,
+`If-Modified-Since`, path normalisation (C07).
 -/
 namespace Hertz.Props.C08
 open Hertz Hertz.FS Hertz.FS.Spec
@@ -140,11 +148,117 @@ theorem contentRange_roundtrip (s e n : Int) (hs : 0 ≤ s) (he : 0 ≤ e) (hn :
 
 example : contentRange 8191 8192 20000 = .ok [98, 121, 116, 101, 115, 32, 56, 49, 57, 49, 45, 56, 49, 57, 50, 47, 50, 48, 48, 48, 48] := by decide
 
+/-! ## which file is served
+
+The tree maps paths to files `(payload, mtime, compressible)`; `Payload.gz p` is a gzip stream of
+`p`.  `FsFile.meaning` is what a client has after undoing the `Content-Encoding` the handler
+announces.  The hypothesis `hs` is the assumption every mtime-keyed cache makes: a `.hertz.gz`
+sibling carrying the modification time of the file is a gzip stream of the file.  Nothing is assumed
+about siblings with any other modification time — older OR newer, whatever they hold. -/
+
+/-- `openFSFile` returns the requested file's own bytes — plain, or as a gzip stream of exactly
+them — and its modification time: for every tree, every path, with or without `mustCompress`,
+whatever an older or newer `.hertz.gz` sibling holds. -/
+theorem open_serves_the_file (t : Tree) (path c : Bytes) (m : Nat) (z mc : Bool)
+    (hf : t.find path = some ⟨.raw c, m, z⟩)
+    (hs : ∀ s, t.find (path ++ gzSuffix) = some s → s.mtime = m → s.payload = .gz (.raw c)) :
+    ∃ ff, (openFSFile t path mc).2 = .ok ff ∧ ff.meaning = some c ∧ ff.lastModified = m :=
+  open_serves t path c m z mc hf hs
+
+/-- regression (seed C08-m3): a sibling NEWER than the file with other content is not trusted: it
+is replaced by a gzip stream of the file, and that is what is served. -/
+example :
+    let t : Tree := [([97], ⟨.raw [1, 2, 3], 5, true⟩), ([97] ++ gzSuffix, ⟨.gz (.raw [9, 9]), 7, false⟩)]
+    openFSFile t [97] true =
+      ([([97] ++ gzSuffix, ⟨.gz (.raw [1, 2, 3]), 5, false⟩), ([97], ⟨.raw [1, 2, 3], 5, true⟩)],
+       .ok ⟨.gz (.raw [1, 2, 3]), true, 5⟩) := by decide
+/-- non-vacuity of `hs`: without it the claim is false — a sibling with the file's own mtime is
+served as it is. -/
+example :
+    let t : Tree := [([97], ⟨.raw [1, 2, 3], 5, true⟩), ([97] ++ gzSuffix, ⟨.gz (.raw [9, 9]), 5, false⟩)]
+    (openFSFile t [97] true).2 = .ok ⟨.gz (.raw [9, 9]), true, 5⟩ := by decide
+
+/-- A missing file is an error (404) whatever siblings lie around. -/
+theorem open_missing_is_error (t : Tree) (path : Bytes) (mc : Bool) (hf : t.find path = none) :
+    ∃ e, (openFSFile t path mc).2 = .error e := open_missing t path mc hf
+
+example : (openFSFile [([97] ++ gzSuffix, ⟨.gz (.raw [9, 9]), 7, false⟩)] [97] true).2 = .error .other := by decide
+
+/-- Opening a file changes nothing in the tree except that file's `.hertz.gz` sibling: no served
+file is ever modified. -/
+theorem open_touches_only_the_sibling (t : Tree) (path q : Bytes) (mc : Bool) (hq : q ≠ path ++ gzSuffix) :
+    (openFSFile t path mc).1.find q = t.find q := open_tree t path q mc hq
+
+/-- … and the sibling it leaves behind again satisfies the assumption `hs`. -/
+theorem open_leaves_honest_sibling (t : Tree) (path c : Bytes) (m : Nat) (z mc : Bool)
+    (hf : t.find path = some ⟨.raw c, m, z⟩)
+    (hs : ∀ s, t.find (path ++ gzSuffix) = some s → s.mtime = m → s.payload = .gz (.raw c)) :
+    ∀ s, (openFSFile t path mc).1.find (path ++ gzSuffix) = some s → s.mtime = m → s.payload = .gz (.raw c) :=
+  open_sibling t path c m z mc hf hs
+
+example : (openFSFile [([97], ⟨.raw [1, 2, 3], 5, true⟩)] [97] true).1.find ([97] ++ gzSuffix)
+    = some ⟨.gz (.raw [1, 2, 3]), 5, false⟩ := by decide
+
+/-- A request that finds no cache entry (first request, new handler, expired entry) is answered
+from `openFSFile` on the tree as it is now. -/
+theorem uncached_request_opens_current_tree (compress : Bool) (st : State) (path r : Bytes) (ae : Bool)
+    (h1 : st.cache.find path = none) (h2 : st.ccache.find path = none) :
+    (fetch compress st path r ae).2 = (openFSFile st.tree path (mustCompress compress r ae)).2 :=
+  (fetch_uncached compress st path r ae h1 h2).1
+
+example : (fetch true {} [97] [] true).2 = .error .notExist := by decide
+
+/-- **Whole scenarios.**  Take any sequence of tree changes (files replaced, deleted, re-created with
+any modification times; `.hertz.gz` siblings planted with any payload and any modification time, or
+removed), cache flushes (new handler / expiry) and requests (any method, `Range`, with or without
+`Accept-Encoding: gzip`), with `Compress` on or off.  If the scenario respects the mtime assumption
+(`Spec.honest`: same name and same modification time imply same content) and no name is itself a
+`.hertz.gz` path, then EVERY request is answered from a file whose meaning — its bytes, or what its
+gzip stream decodes to — is a content the requested file had at some moment since the caches were
+last empty; and with an error (404) only if the file was absent at such a moment. -/
+theorem scenario_serves_a_version (compress : Bool) (steps pre post : List Step) (name r : Bytes) (head ae : Bool)
+    (hh : Spec.honest steps = true) (hn : ∀ s ∈ steps, ∀ n, s.name? = some n → ¬ gzSuffix <:+ n)
+    (hsplit : steps = pre ++ .get name head ae r :: post) :
+    match (fetch compress (stateAfter compress {} pre) name r ae).2 with
+    | .ok ff => ∃ c, ff.meaning = some c ∧ some c ∈ (Spec.viewOf name pre).since
+    | .error _ => none ∈ (Spec.viewOf name pre).since := by
+  have := scenario_good compress steps pre post name r head ae hh hn hsplit
+  cases h : (fetch compress (stateAfter compress {} pre) name r ae).2 <;> (rw [h] at this; exact this)
+
+/-- non-vacuity, and the roll-back of seed C08-m3 as a scenario: v2 `[7,7]` (mtime 9) is served
+compressed, the file is rolled back to v1 `[1,2,3]` with its older mtime 2, the cache is emptied:
+a gzip client gets v1, which is the only content allowed. -/
+example :
+    let pre : List Step := [.write [97] [7, 7] 9 true, .get [97] false true [], .write [97] [1, 2, 3] 2 true, .flush]
+    Spec.honest (pre ++ [.get [97] false true []]) = true ∧
+    (fetch true (stateAfter true {} pre) [97] [] true).2 = .ok ⟨.gz (.raw [1, 2, 3]), true, 2⟩ ∧
+    (Spec.viewOf [97] pre).since = [some [1, 2, 3]] := by decide
+/-- without the flush the cached v2 may still be served, and the spec allows exactly that -/
+example :
+    let pre : List Step := [.write [97] [7, 7] 9 true, .get [97] false true [], .write [97] [1, 2, 3] 2 true]
+    (fetch true (stateAfter true {} pre) [97] [] true).2 = .ok ⟨.gz (.raw [7, 7]), true, 9⟩ ∧
+    (Spec.viewOf [97] pre).since = [some [1, 2, 3], some [7, 7], none] := by decide
+
 /-- The Go sources still have the shape the model was written against (see `Hertz/Gen/Fs.lean`). -/
 theorem model_matches_gen_C08 :
     strBytes = Gen.Str.strBytes ∧ Gen.Fs.maxSmallFileSize = 8192 ∧
     Gen.Fs.smallUpdateByteRange = ["r.startPos = startPos", "r.endPos = endPos + 1", "return nil"] ∧
     Gen.Fs.maxIntExpr = "int(^uint(0) >> 1)" :=
   ⟨model_matches_gen.1, model_matches_gen.2.1, model_matches_gen.2.2.2.1, model_matches_gen.2.2.2.2.2.2.2.2.1⟩
+
+/-- `openFSFile`, `compressAndOpenFSFile`, `compressFileNolock` and the sibling suffix still have the
+shape `Hertz/Model/FsTree.lean` mirrors (statement skeletons regenerated from the Go source). -/
+theorem model_matches_gen_open_path :
+    gzSuffix = Gen.Fs.compressedFileSuffix ∧
+    "if fileInfoOriginal.ModTime() != fileInfo.ModTime()" ∈ Gen.Fs.openFSFile ∧
+    Gen.Fs.openFSFile.length = 27 ∧ Gen.Fs.compressAndOpenFSFile.length = 22 ∧ Gen.Fs.compressFileNolock.length = 25 := by
+  obtain ⟨h0, h1, h2, h3⟩ := open_path_matches_gen
+  refine ⟨h0, ?_, ?_, ?_, ?_⟩
+  · rw [h1]; decide
+  · rw [h1]; rfl
+  · rw [h2]; rfl
+  · rw [h3]; rfl
+
+example : Gen.Fs.compressedFileSuffix.length = 9 ∧ Gen.Fs.openFSFile.head? = some "filePathOriginal := filePath" := by decide
 
 end Hertz.Props.C08
